@@ -69,6 +69,7 @@ type State struct {
 	obs     []obsEntry       // observed values (translator validation)
 	tasks   []*task          // fork-join idiom: goroutines spawned and not yet run
 	chans   map[int]*chanObj
+	goCount int // number of `go` statements executed since verifGoReset; -1 = counting is off (go is unsupported)
 }
 
 type obsEntry struct {
@@ -77,7 +78,7 @@ type obsEntry struct {
 }
 
 func (s *State) clone() *State {
-	n := &State{eng: s.eng, dead: s.dead, why: s.why, lastRet: s.lastRet, curKey: s.curKey, subAlloc: s.subAlloc}
+	n := &State{eng: s.eng, dead: s.dead, why: s.why, lastRet: s.lastRet, curKey: s.curKey, subAlloc: s.subAlloc, goCount: s.goCount}
 	n.allocLog = append([]int(nil), s.allocLog...)
 	n.heap = make(map[int]Value, len(s.heap))
 	for k, v := range s.heap {
@@ -252,7 +253,7 @@ func sanitize(s string) string {
 // ---------- running ----------
 
 func (e *Engine) RunHarness(fn *ssa.Function) {
-	st := &State{eng: e, heap: map[int]Value{}}
+	st := &State{eng: e, heap: map[int]Value{}, goCount: -1}
 	// run the package initialisers of pint packages first (package-level vars)
 	if initFn := fn.Pkg.Func("init"); initFn != nil {
 		e.InitMode = true
@@ -806,7 +807,18 @@ func (e *Engine) step(st *State) (forks []*State) {
 		}
 		fv := e.val(fr, in.Call.Value)
 		return e.doCall(st, fr, in, &in.Call, fv, args, true)
-	case *ssa.Go, *ssa.Send, *ssa.Select, *ssa.MakeChan:
+	case *ssa.MakeChan:
+		fr.regs[in] = e.makeChan(st, e.val(fr, in.Size))
+	case *ssa.Send:
+		e.chanSend(st, e.val(fr, in.Chan), e.val(fr, in.X))
+	case *ssa.Go:
+		// counted, not run — only after the harness opted in with verifGoReset (the spawned function must be one
+		// that cannot make progress before the harness looks, e.g. a worker blocked on an empty queue)
+		if st.goCount < 0 {
+			unsupported("concurrency instruction %T", instr)
+		}
+		st.goCount++
+	case *ssa.Select:
 		unsupported("concurrency instruction %T", instr)
 	default:
 		unsupported("instruction %T (%s)", instr, instr)
@@ -902,6 +914,8 @@ func (e *Engine) unop(st *State, in *ssa.UnOp, x Value) Value {
 	switch in.Op {
 	case token.MUL:
 		return e.load(st, x.(PtrVal))
+	case token.ARROW:
+		return e.chanRecv(st, x, in.CommaOk, in.Type())
 	case token.NOT:
 		return Not(asTerm(x))
 	case token.SUB:
@@ -1431,6 +1445,7 @@ func (e *Engine) lookup(st *State, fr *Frame, in *ssa.Lookup) []*State {
 	// result = ite chain over entries (latest entries win; keys are kept distinct by mapUpdate)
 	var res Value = zeroValue(elemT)
 	found := FalseT
+	mergeable := true
 	for i := len(mo.Entries) - 1; i >= 0; i-- {
 		c := e.valuesEq(mo.Entries[i].Key, key)
 		if c.IsFalse() {
@@ -1443,13 +1458,15 @@ func (e *Engine) lookup(st *State, fr *Frame, in *ssa.Lookup) []*State {
 		}
 		m, ok := mergeValue(c, mo.Entries[i].Val, res)
 		if !ok {
-			unsupported("map lookup with symbolic key over non-mergeable values")
+			mergeable = false
+			break
 		}
 		res = m
 		found = Or(c, found)
-		if c.IsTrue() {
-			break
-		}
+	}
+	if !mergeable {
+		// values that cannot be merged (pointers to different objects): fork on which entry the key equals
+		return e.lookupFork(st, fr, in, mo, key, elemT)
 	}
 	if in.CommaOk {
 		fr.regs[in] = TupleVal{Vals: []Value{res, found}}
@@ -1458,6 +1475,65 @@ func (e *Engine) lookup(st *State, fr *Frame, in *ssa.Lookup) []*State {
 	}
 	fr.ip++
 	return nil
+}
+
+// lookupFork: one successor state per feasible "key equals entry i" and one for "key equals no entry".
+func (e *Engine) lookupFork(st *State, fr *Frame, in *ssa.Lookup, mo *MapObj, key Value, elemT types.Type) []*State {
+	type alt struct {
+		val   Value
+		found bool
+		cond  *Term
+	}
+	var alts []alt
+	none := TrueT
+	for i := len(mo.Entries) - 1; i >= 0; i-- {
+		c := e.valuesEq(mo.Entries[i].Key, key)
+		if c.IsFalse() {
+			continue
+		}
+		alts = append(alts, alt{mo.Entries[i].Val, true, And(none, c)})
+		none = And(none, Not(c))
+		if c.IsTrue() {
+			break
+		}
+	}
+	alts = append(alts, alt{zeroValue(elemT), false, none})
+	var live []alt
+	for _, a := range alts {
+		if a.cond.IsFalse() {
+			continue
+		}
+		if !a.cond.IsTrue() {
+			r := e.S.Check(st.pc, a.cond)
+			e.S.EndModel()
+			if r == Unsat {
+				continue
+			}
+		}
+		live = append(live, a)
+	}
+	if len(live) == 0 {
+		st.dead = true
+		return nil
+	}
+	var forks []*State
+	for k, a := range live {
+		tgt := st
+		if k < len(live)-1 {
+			tgt = st.clone()
+			forks = append(forks, tgt)
+		}
+		if !a.cond.IsTrue() {
+			tgt.pc = append(tgt.pc, a.cond)
+		}
+		if in.CommaOk {
+			tgt.top().regs[in] = TupleVal{Vals: []Value{a.val, ConstBool(a.found)}}
+		} else {
+			tgt.top().regs[in] = a.val
+		}
+		tgt.top().ip++
+	}
+	return forks
 }
 
 func (e *Engine) mapUpdate(st *State, fr *Frame, in *ssa.MapUpdate) []*State {
